@@ -99,6 +99,8 @@ class SelOrder:
                 if k == "param":
                     if fam and fam.startswith("blocks") and e.id.startswith("slices"):
                         res.add((fam, "full", "slices"))
+                    else:
+                        res |= self.adopted(e.id, depth)
                 elif k == "assign" and v is not None:
                     res |= self.facts(v, st, depth + 1)
             return res
@@ -165,6 +167,46 @@ class SelOrder:
                     out |= self.facts(a_, at, depth + 1)
                 return out
         return set()
+
+    def adopted(self, name, depth):
+        """A parameter that is zipped, in its initial value, with members of a family is itself parallel to that family (`minD` in
+        `zip(struct.t, minD)` has one entry per block): it adopts the family with the partners' selection.  Sites that disagree give
+        nothing."""
+        if not hasattr(self, "_adopting"):
+            self._adopting, self._adopted = set(), {}
+        if name in self._adopted:
+            return self._adopted[name]
+        if name in self._adopting or depth > 12:
+            return set()
+        self._adopting.add(name)
+        found = []
+        try:
+            for n in A.walk_local(self.fn, include_self=False):
+                if not (isinstance(n, ast.Call) and A.call_name(n) == "zip" and len(n.args) >= 2):
+                    continue
+                if not any(isinstance(a, ast.Name) and a.id == name for a in n.args):
+                    continue
+                st = A.stmt_of(n, self.parent)
+                ds = self.defs(name, st)
+                if not ds or any(k != "param" for _, _, k in ds):
+                    continue        # the name was rebound on some path to this site: not its initial value
+                part = set()
+                for a in n.args:
+                    if isinstance(a, ast.Name) and a.id == name:
+                        continue
+                    part |= self.facts(a, st, depth + 1)
+                part = {(f, s_, m) for f, s_, m in part if not m.startswith("adopt:")}
+                if part:
+                    fams = {f for f, _, _ in part}
+                    if len(fams) == 1:
+                        found.append(frozenset((f, s_) for f, s_, _ in part))
+        finally:
+            self._adopting.discard(name)
+        out = set()
+        if found and all(x == found[0] for x in found):
+            out = {(f, s_, "adopt:" + name) for f, s_ in found[0]}
+        self._adopted[name] = out
+        return out
 
     def check(self):
         for n in A.walk_local(self.fn, include_self=False):
